@@ -59,6 +59,50 @@ def generate(chk, name, cst):
     return table[0], [tuple(x) for x in queries], hists, readers
 
 
+def generate_life(chk, name, cst):
+    """process lives (spec/Chronicle_Gen.tla LifeSpec): one event history per distinct (files, observations of
+    the queries so far that still hold, observations that a later append has outdated)"""
+    cfg = os.path.join(chk.work, f'{name}.cfg')
+    tlc.write_cfg(cfg, spec='LifeSpec', constants=cst, invariants=['LifeInv', 'C18_FindOK'], extra=['VIEW LifeView'])
+    res = tlc.run('Chronicle_Gen.tla', cfg, workers=1, timeout=1800, out_file=os.path.join(chk.work, f'{name}.out'))
+    if not res.ok:
+        raise core.Machinery(f'generation {name} failed: {res.error or res.violated}')
+    chk.mc_runs.append(dict(res.summary(), name=name, module='Chronicle_Gen.tla'))
+    lives = [json.loads(r[1]) for r in tlc.printed(res, 'LIFE')]
+    lives = [x for x in lives if x[0]]
+    if len(lives) + 1 != res.distinct or not any(x[1][1] for x in lives):
+        raise core.Machinery(f'generation {name}: {len(lives)} lives for {res.distinct} states')
+    return lives
+
+
+def life_jobs(rnd, table, lives, queries, n, nq, start):
+    """lives with an outdated observation first (all of them when n is None), then the others; nq further queries at the end"""
+    hot = [x for x in lives if x[1][1]]
+    cold = [x for x in lives if not x[1][1]]
+    if n is not None:
+        hot = rnd.sample(hot, min(len(hot), n - n // 5))
+        cold = rnd.sample(cold, min(len(cold), n // 5))
+    nz = len(table['zone'])
+    jobs = []
+    for i, (h, _) in enumerate(hot + cold):
+        ev = []
+        for k, a, b, c, d, e in h:
+            ev.append(['a', a] if k == 0 else ['r'] if k == 2 else ['q', a, b, c, d, e, rnd.randint(1, nz), 1 if rnd.random() < 0.25 else 0, 0])
+        qs = [list(x) + [1 if rnd.random() < 0.25 else 0, 0] for x in rnd.sample(queries, min(nq, len(queries)))]
+        jobs.append({'id': start + i, 'table': table, 'appends': [x[1] for x in ev if x[0] == 'a'], 'events': ev, 'strform': bool(i % 2), 'queries': qs})
+    return jobs
+
+
+def prog(job):
+    """the events of one process life in the order the harness runs them (trace line k + 2 is event k)"""
+    return ([list(x) for x in job['events']] if job.get('events') else [['a', e] for e in job['appends']]) + [['q'] + list(x) for x in job['queries']]
+
+
+def cut(job, n):
+    """the job that replays the first n events"""
+    return dict(job, events=prog(job)[:n] or [['r']], queries=[])
+
+
 def when(table, i):
     if i < 0:
         return None
@@ -104,7 +148,7 @@ def validate_and_collect(chk, pid, cal, jobs):
     byid = {j['id']: j for j in jobs}
     recs = {}
     need = {(r['tid'], r['line']) for r in rows['CLAUSE']} | {(r[1], r[2]) for r in rows['DRIFT'][:5]}
-    stats = dict(append_lines=0, find_lines=0, api_lines=0, reader_lines=0, answers_after_a_reader=0, nonempty_answers=0, nonempty_offset_answers=0, truncated_answers=0, errors=0)
+    stats = dict(queries_before_an_append=0, answers_with_an_entry_appended_after_a_query=0, restart_lines=0, append_lines=0, find_lines=0, api_lines=0, reader_lines=0, answers_after_a_reader=0, nonempty_answers=0, nonempty_offset_answers=0, truncated_answers=0, errors=0)
     nontrivial = set()
     for fn in files:
         with open(fn, 'rt', encoding='utf-8') as f:
@@ -112,7 +156,17 @@ def validate_and_collect(chk, pid, cal, jobs):
                 t = json.loads(ln)
                 apps = tuple(byid[t['tid']]['appends'])
                 read = False
+                last_app = max([i for i, st in enumerate(t['steps']) if st['ev'] == 'append'], default=-1)
+                late, asked = set(), False
                 for i, st in enumerate(t['steps']):
+                    if st['ev'] in ('find', 'api'):
+                        asked = True
+                        stats['queries_before_an_append'] += i < last_app
+                        stats['answers_with_an_entry_appended_after_a_query'] += bool(late & set(st['obs']['res']))
+                    elif st['ev'] == 'append' and asked:
+                        late.add(st['args']['e'])
+                    elif st['ev'] == 'reopen':
+                        stats['restart_lines'] += 1
                     if st['ev'] == 'stats':
                         stats['reader_lines'] += 1
                         read = True
@@ -147,15 +201,16 @@ def validate_and_collect(chk, pid, cal, jobs):
         table = job['table']
         st = recs.get((tid, line), {})
         reasons = ','.join(sorted(r['why']))
-        qi = line - 2 - len(job['appends'])
+        pg = prog(job)
+        qi = line - 2
         if ev == 'stats':
-            q = job['queries'][qi]
+            q = pg[qi][1:]
             sig = f'reader:{reasons}'
             detail = {'call': 'fe.api.df_model_statistics', 'node_of_entry': q[7], 'boot_time': when(table, q[0]), 'now': when(table, q[4]), 'appends': job['appends'], 'files_after': st.get('st', {}).get('files'), 'error': st.get('obs', {}).get('err')}
-            rjob = dict(job, queries=job['queries'][: qi + 1])
+            rjob = cut(job, qi + 1)
         elif ev in ('find', 'api'):
-            q = job['queries'][qi]
-            earlier = job['queries'][:qi]
+            q = pg[qi][1:]
+            earlier = [x[1:] for x in pg[:qi] if x[0] == 'q']
             hist = ('after-reader:' if any(x[6] == 2 for x in earlier) else 'after-find:' if any(x[6] == 0 for x in earlier) else '')
             sig = f'{ev}:{shape(q)}:{reasons}'
             detail = {
@@ -166,16 +221,17 @@ def validate_and_collect(chk, pid, cal, jobs):
                 'succeeded': bool(q[3]),
                 'now': when(table, q[4]),
                 'bounds_written_with_offset': zone(table, q[5]),
-                'appended': [{'id': e, 'completed': when(table, table['at'][e - 1]), 'status': table['st'][e - 1], 'run': table['run'][e - 1]} for e in job['appends']],
+                'appended': [{'id': x[1], 'completed': when(table, table['at'][x[1] - 1]), 'status': table['st'][x[1] - 1], 'run': table['run'][x[1] - 1]} for x in pg[:qi] if x[0] == 'a'],
+                'process_life': [x[0] if x[0] != 'a' else x[1] for x in pg[:qi]],
                 'returned_ids': st.get('obs', {}).get('res'),
                 'error': st.get('obs', {}).get('err'),
                 'earlier_calls_in_this_history': hist.rstrip(':') or 'none',
             }
-            rjob = dict(job, queries=job['queries'][: qi + 1])  # answers may depend on the earlier readers of the history
+            rjob = cut(job, qi + 1)  # answers may depend on the earlier readers of the history
         else:
             sig = f'{ev}:{reasons}'
-            detail = {'appends': job['appends'][: max(0, line - 1)], 'files_after': st.get('st', {}).get('files'), 'error': st.get('obs', {}).get('err')}
-            rjob = dict(job, queries=[])
+            detail = {'process_life': [x[0] if x[0] != 'a' else x[1] for x in pg[: max(0, line - 1)]], 'files_after': st.get('st', {}).get('files'), 'error': st.get('obs', {}).get('err')}
+            rjob = cut(job, max(0, line - 1))
         for clause in sorted(r['bad']):
             if clause.startswith(pid + '.'):
                 chk.add_violation(clause, sig, dict(detail, calendar=cal, trace=tid, line=line, why=reasons), {'cal': cal, 'job': rjob})
@@ -225,7 +281,16 @@ def random_jobs(rnd, table, n, nq, nread, start):
             qs.append([a, b, lim, rnd.randint(0, 1), rnd.randint(top + 1, ninst - 1), rnd.randint(1, len(table['zone'])), 1 if rnd.random() < 0.2 else 0, 0])
         readers = [(rnd.choice([0] + hot), e) for e in (h or [1])]
         with_readers(rnd, qs, readers, h, nread, list(range(top + 1, ninst)), len(table['zone']))
-        jobs.append({'id': start + i, 'table': table, 'appends': h, 'strform': bool(i % 2), 'queries': qs})
+        job = {'id': start + i, 'table': table, 'appends': h, 'strform': bool(i % 2), 'queries': qs}
+        if i % 2 and h:  # one process life: some of the queries run between the appends, now and then a restart
+            ev = [['a', e] for e in h]
+            k = rnd.randint(1, max(1, len(qs) // 2))
+            for x in qs[:k]:
+                ev.insert(rnd.randint(0, len(ev) - 1), ['q'] + x)
+            if rnd.random() < 0.4:
+                ev.insert(rnd.randint(1, len(ev)), ['r'])
+            job.update(events=ev, queries=qs[k:])
+        jobs.append(job)
     return jobs
 
 
@@ -266,6 +331,7 @@ def run(pid, tier, seed, replay=None):
         'after+limit without before is unconstrained beyond "subset of the window, newest first" (statement is silent); ties in completion time may be ordered / cut anywhere',
         'bounds are handed over tz-aware, written with the offsets +00:00, -05:00, +05:30, +13:00, -11:00 (datetimes for find, ISO strings in lists for failed/succeeded - the form the web layer hands over); the zone is not part of the meaning of a query; a call that raises is not an answer',
         'journal files are read back from disk after every append; an entry counts only if it is byte-for-byte (as JSON) the entry that was handed to append',
+        'one trace is one process life: appends, queries and other readers in any order (TLC enumerates one life per distinct (files, what the queries so far saw missing/loaded and still holds, what an append has outdated since) on calendar J, 3 entries in 3 months / 2 years), process restarts = reload of the chronicle module; completion times need not be appended in order and a window may reach beyond the clock',
         'other readers of the history run between the queries of a history: the real fe.api.df_model_statistics (scheduler queues empty, boot time injected) and, after every find, the harness editing the entries it was handed (the caller\'s own copies); by the property they change nothing',
     ]
     if replay:
@@ -314,23 +380,35 @@ def run(pid, tier, seed, replay=None):
             ('J', 'genJA', consts('J', 'CandA', 'Q', [0, 1, 2], 'T'), 100, 20),
         ]
         nrand, nrq, nread = 600, 60, 4
+        lifegen, nlife, nlq = ('J', 'lifeJ', consts('J', 'CandL', 'L', [2], 'Q')), None, 12
     else:
         gens = [
             ('Y', 'genYA', consts('Y', 'CandA', 'Q', [0, 1, 2], 'Q'), 45, 12),
             ('J', 'genJS', consts('J', 'CandS', 'Q', [0, 1, 2], 'Q'), 40, 10),
         ]
         nrand, nrq, nread = 50, 40, 2
+        lifegen, nlife, nlq = ('J', 'lifeJ', consts('J', 'CandL', 'L', [2], 'Q')), 60, 6
     jobs = {c: [] for c in SETS}
     tables = {}
+    lastq = {}
     nid = 0
     for cal, name, cst, nfind, napi in gens:
         table, queries, hists, readers = generate(chk, name, cst)
         tables[cal] = table
+        lastq[cal] = queries
         chk.counters['histories_' + name] = len(hists)
         chk.counters['queries_' + name] = len(queries)
         new = make_jobs(rnd, table, hists, queries, readers, nfind, napi, nread, start=nid)
         nid += len(new)
         jobs[cal] += new
+    cal, name, cst = lifegen
+    lives = generate_life(chk, name, cst)
+    chk.counters['process_lives_' + name] = len(lives)
+    chk.counters['process_lives_with_an_outdated_observation_' + name] = sum(1 for x in lives if x[1][1])
+    new = life_jobs(rnd, tables[cal], lives, lastq[cal], nlife, nlq, start=nid)
+    chk.counters['process_lives_run'] = len(new)
+    nid += len(new)
+    jobs[cal] += new
     for cal in SETS:
         if cal not in tables:
             continue
@@ -353,13 +431,13 @@ def run(pid, tier, seed, replay=None):
     for cal in SETS:
         validate_and_collect(chk, pid, cal, jobs[cal])
     completions(chk, pid, thorough, rnd)
-    for k in ('append_lines', 'find_lines', 'api_lines', 'reader_lines', 'answers_after_a_reader', 'nonempty_answers', 'nonempty_offset_answers', 'truncated_answers', 'completions_recorded_by_the_scheduler'):
+    for k in ('queries_before_an_append', 'answers_with_an_entry_appended_after_a_query', 'restart_lines', 'append_lines', 'find_lines', 'api_lines', 'reader_lines', 'answers_after_a_reader', 'nonempty_answers', 'nonempty_offset_answers', 'truncated_answers', 'completions_recorded_by_the_scheduler'):
         if not chk.counters.get(k) and not chk.violations:
             raise core.Machinery(f'vacuous run: counter {k} is zero')
     return chk.finish(
         'histories = one append sequence per distinct state of the journal files of the bounded model (all of them), queries = the (after, before, limit, outcome, now) '
         'domain printed by TLC (exhaustive in the model; per history a seeded sample of it is run on the real code), each through the real chronicle.find and through '
-        'fe.api.schedule.failed/succeeded on real files, in seeded order, with other readers of the history (fe.api.df_model_statistics; the caller editing the entries it got) in between; plus seeded random histories/queries over all table entries and the whole instant grid of each calendar. '
+        'fe.api.schedule.failed/succeeded on real files, in seeded order, with other readers of the history (fe.api.df_model_statistics; the caller editing the entries it got) in between; plus process lives generated by TLC (queries between the appends, every way an earlier observation of a query can be outdated by a later append) followed by sampled queries; plus seeded random histories/queries over all table entries and the whole instant grid of each calendar, half of them with queries between the appends and restarts. '
         'non-trivial = distinct (history, call, query) with a non-empty real answer'
     )
 
